@@ -45,6 +45,7 @@ def run(idx: ProgramIndex, rep: Report, tier: str):
     param_expansion(idx, rep)
     objective_reductions(idx, rep)
     prior_alignment(idx, rep)
+    right_alignment(idx, rep)
 
 
 def _families(idx: ProgramIndex) -> List[ClassInfo]:
@@ -252,7 +253,22 @@ def param_expansion(idx: ProgramIndex, rep: Report):
                     def self_attrs(e):
                         return {x.attr for x in ast.walk(e) if isinstance(x, ast.Attribute) and isinstance(x.value, ast.Name) and x.value.id == sn}
                     pattrs = self_attrs(recv) & (regs | props | {"raw_" + r for r in regs})
-                    if not pattrs or any(isinstance(x, ast.Name) and x.id in data_params for x in ast.walk(recv)):
+                    def value_nodes(e):
+                            """sub-expressions that contribute to the value / shape (dtype= and device= arguments, .to(...) arguments do not)"""
+                            yield e
+                            if isinstance(e, ast.Call):
+                                yield from value_nodes(e.func)
+                                if isinstance(e.func, ast.Attribute) and e.func.attr in ("to", "type", "type_as"):
+                                    return
+                                for a_ in e.args:
+                                    yield from value_nodes(a_)
+                                for k_ in e.keywords:
+                                    if k_.arg not in ("dtype", "device"):
+                                        yield from value_nodes(k_.value)
+                                return
+                            for ch in ast.iter_child_nodes(e):
+                                yield from value_nodes(ch)
+                    if not pattrs or any(isinstance(x, ast.Name) and x.id in data_params for x in value_nodes(recv)):
                         continue  # the expanded tensor is not a pure parameter value
                     key = (c.lineno, c.col_offset)
                     if key in seen:
@@ -264,7 +280,10 @@ def param_expansion(idx: ProgramIndex, rep: Report):
                         """does the shape expression involve the *batch* part of a parameter-derived value's shape?"""
                         for x in ast.walk(a):
                             if isinstance(x, ast.Call) and (chain(x.func) or "").endswith("broadcast_shapes"):
-                                return True
+                                # a broadcast of data shapes alone says nothing about the parameter: one operand must be parameter-derived
+                                if any(self_attrs(a_) or any(isinstance(y, ast.Name) and y.id == sn for y in ast.walk(a_)) for a_ in x.args):
+                                    return True
+                                continue
                             if isinstance(x, ast.Attribute) and x.attr == "batch_shape" and (self_attrs(x.value) or chain(x.value) == sn):
                                 return True
                             if isinstance(x, ast.Attribute) and x.attr == "shape" and self_attrs(x.value):
@@ -386,3 +405,76 @@ def prior_alignment(idx: ProgramIndex, rep: Report):
                         rep.add("C08-6", inst, "%s:%d" % (fi.module.relpath, c.lineno), not probs,
                                 "the prior term is not re-shaped by the objective's rank" if not probs else "; ".join(sorted(set(probs))), {})
     rep.floor("C08-6", "hyper-prior terms in objective code", n, 2)
+
+
+# ---- C08-7 ---------------------------------------------------------------------------------------------------------
+def right_alignment(idx: ProgramIndex, rep: Report):
+    """Parameters and data meet by broadcasting, which aligns batch dimensions from the right.  Two idioms break that alignment:
+    (i) tiling a parameter-derived value with `.repeat(*<data>.shape[:-2], 1, 1)` - its own batch dimensions are multiplied by the
+    data's instead of being broadcast against them; (ii) giving a parameter as many trailing singleton dimensions as the *data's rank*
+    says (`for _ in range(len(d.shape) - len(self.batch_shape)): p = p.unsqueeze(-1)`) - the number of trailing (event) dimensions is
+    fixed by the operation (n x m, or n for diag); taken from the data's rank it also swallows data batch dimensions, so the
+    parameter's batch dimensions line up with the leading data batch dimensions instead of the trailing ones."""
+    rep.rule("C08-7", "parameter-derived values meet the data by right-aligned broadcasting: no tiling by the data's batch shape, no singleton count taken from the data's rank")
+    n = 0
+    for cls in _families(idx):
+        fi = cls.methods.get("forward")
+        if fi is None or not fi.params:
+            continue
+        sn = fi.params[0]
+        # the tensors of the call: positional parameters without a default (flags such as diag / last_dim_is_batch and **params are not data)
+        a_ = fi.node.args
+        npos = len(a_.args) - len(a_.defaults)
+        data = {x.arg for x in a_.args[1:npos]} | ({a_.vararg.arg} if a_.vararg else set())
+        n += 1
+        probs = []
+        # local aliases: name -> expression (flow-insensitive closure, good enough to tell parameter-derived from data-derived)
+        binds = {}
+        for a in ast.walk(fi.node):
+            if isinstance(a, ast.Assign) and len(a.targets) == 1 and isinstance(a.targets[0], ast.Name):
+                binds.setdefault(a.targets[0].id, []).append(a.value)
+            if isinstance(a, (ast.FunctionDef,)) and a is not fi.node:
+                for p_ in a.args.args:
+                    data.add(p_.arg)  # parameters of local helpers receive data-shaped values (distances)
+
+        def derives(e, want, depth=0, seen=None, skip=None, before=None) -> bool:
+            """flow-insensitive def-use closure, restricted to bindings textually before line `before` (when given)"""
+            seen = seen or set()
+            for x in ast.walk(e):
+                if want == "param" and isinstance(x, ast.Attribute) and isinstance(x.value, ast.Name) and x.value.id == sn:
+                    return True
+                if want == "data" and isinstance(x, ast.Name) and x.id in data:
+                    return True
+                if isinstance(x, ast.Name) and x.id in binds and x.id not in seen and depth < 6:
+                    seen.add(x.id)
+                    if any(derives(v, want, depth + 1, seen, skip, before) for v in binds[x.id] if v is not skip and (before is None or getattr(v, "lineno", 0) < before)):
+                        return True
+            return False
+
+        for c in (x for x in ast.walk(fi.node) if isinstance(x, ast.Call) and isinstance(x.func, ast.Attribute) and x.func.attr == "repeat"):
+            recv = c.func.value
+            if not derives(recv, "param", skip=c, before=c.lineno + 1) or derives(recv, "data", skip=c, before=c.lineno + 1):
+                continue
+            for a in c.args:
+                if isinstance(a, ast.Starred) and isinstance(a.value, ast.Subscript) and isinstance(a.value.value, ast.Attribute) and a.value.value.attr == "shape" \
+                   and isinstance(a.value.slice, ast.Slice) and a.value.slice.lower is None and \
+                   ((isinstance(a.value.value.value, ast.Name) and a.value.value.value.id in data) or (derives(a.value.value.value, "data") and not derives(a.value.value.value, "param"))):
+                    probs.append("`%s` (line %d) tiles a parameter-derived value by the data's batch shape: a batched parameter gets its batch dimensions multiplied (b -> b*b) instead of broadcast" % (" ".join(src(c).split())[:70], c.lineno))
+        for loop in (x for x in ast.walk(fi.node) if isinstance(x, ast.For)):
+            if not (isinstance(loop.iter, ast.Call) and chain(loop.iter.func) == "range"):
+                continue
+            uns = [b_ for b_ in loop.body if isinstance(b_, ast.Assign) and isinstance(b_.value, ast.Call) and isinstance(b_.value.func, ast.Attribute) and b_.value.func.attr == "unsqueeze"
+                   and len(b_.targets) == 1 and isinstance(b_.targets[0], ast.Name) and isinstance(b_.value.func.value, ast.Name) and b_.value.func.value.id == b_.targets[0].id]
+            if not uns:
+                continue
+            v = uns[0].targets[0].id
+            if not derives(ast.Name(id=v, ctx=ast.Load()), "param"):
+                continue
+            rank_of_data = any((isinstance(x, ast.Call) and chain(x.func) == "len" and x.args and derives(x.args[0], "data") and not derives(x.args[0], "param")) or
+                               (isinstance(x, ast.Call) and isinstance(x.func, ast.Attribute) and x.func.attr in ("dim", "ndimension") and derives(x.func.value, "data") and not derives(x.func.value, "param"))
+                               for a in loop.iter.args for x in ast.walk(a))
+            if rank_of_data:
+                probs.append("`%s` gets `%s` trailing singleton dimensions (line %d): the count follows the data's rank, so with more data batch dimensions than parameter batch dimensions the parameter lines up with the leading data batch dimensions" % (v, " ".join(src(loop.iter).split())[:60], loop.lineno))
+        rep.add("C08-7", "%s:%s.forward" % (cls.module.name, cls.qualname), fi.where, not probs,
+                "no tiling by the data's batch shape, no rank-derived singleton counts" if not probs else "; ".join(probs), {})
+    rep.floor("C08-7", "forward methods of means, kernels and noise models", n, 42)
